@@ -257,23 +257,8 @@ fn load_balancing(tier: Tier, st: &mut Stats) {
     }
 }
 
-/// (c) schedules: shared with C19's explorer; here the per-task responses are judged
-fn schedules(tier: Tier, st: &mut Stats, bounds: &mut serde_json::Map<String, Value>) -> Result<(), String> {
-    let fx = fixture_spec(&AppSpec::simple(base_net()))?;
-    let qa = crate::props::c19::query_alphabet();
-    let q = |i: usize, id: &str| tagq(&qa[i], id);
-    let scs = vec![
-        (Scenario { name: "c06_2x2_jsonl".into(), batches: vec![vec![q(0, "a0"), q(2, "a1")], vec![q(1, "b0"), q(4, "b1")]], csv: false, flush_rate: 1, keep_responses: true, fresh_app: false }, None),
-        (Scenario { name: "c06_3x1_csv".into(), batches: vec![vec![q(0, "a0")], vec![q(2, "b0")], vec![q(3, "c0")]], csv: true, flush_rate: 1, keep_responses: true, fresh_app: false }, Some(tier.pick(2, 4))),
-    ];
-    for (sc, bound) in scs {
-        let (orders, schedules) = explore_scenario(&fx, &sc, bound, tier.pick(20_000, 1_000_000), "C06", st)?;
-        bounds.insert(sc.name.clone(), json!({"preemption_bound": bound.map(|b| json!(b)).unwrap_or(json!("unbounded (complete)")), "schedules": schedules, "distinct_file_orders": orders}));
-        if orders < 2 {
-            st.violation("harness", "vacuous_exploration", 0, || format!("scenario {} produced a single file order", sc.name), || json!({}));
-        }
-    }
-    // shared prediction cache: two tasks running battery-electric queries over one FloatCachePolicy
+/// the application with a prediction cache shared by all workers
+fn cache_spec() -> AppSpec {
     let mut spec = AppSpec::simple(base_net());
     let speeds: Vec<f64> = (0..base_net().m()).map(|e| [30.0, 50.0, 80.0][e % 3]).collect();
     spec.speed = Some((speeds, SpeedUnit::KilometersPerHour, Some(DistanceUnit::Miles), Some(TimeUnit::Minutes)));
@@ -287,20 +272,37 @@ fn schedules(tier: Tier, st: &mut Stats, bounds: &mut serde_json::Map<String, Va
             "float_cache_policy": {"cache_size": 100, "key_precisions": [6, 6]}}]
     }));
     spec.cost = json!({"weights": {"distance": 0.0, "time": 0.0, "energy_electric": 1.0}, "vehicle_rates": {"distance": {"type": "raw"}, "time": {"type": "raw"}, "energy_electric": {"type": "raw"}}, "cost_aggregation": "sum", "network_rates": {}});
-    let fx2 = fixture_spec(&spec)?;
+    spec
+}
+
+/// (c) the schedule scenarios: (uses the cache application, scenario, preemption bound)
+fn schedule_scenarios(tier: Tier) -> Vec<(bool, Scenario, Option<usize>)> {
+    let qa = crate::props::c19::query_alphabet();
+    let q = |i: usize, id: &str| tagq(&qa[i], id);
     let e = |o: usize, d: usize, id: &str| tagq(&json!({"origin_vertex": o, "destination_vertex": d, "model_name": "bolt", "starting_soc_percent": 70}), id);
-    // warm: every lookup is a hit (the cache was filled by the alone runs); cold: a fresh application per execution, so that
-    // misses, the model call and the update of two workers interleave; distinct: the two workers meet the keys in different orders
-    let cache_scs = vec![
-        (Scenario { name: "c06_2x1_shared_prediction_cache".into(), batches: vec![vec![e(0, 4, "a0")], vec![e(0, 4, "b0")]], csv: false, flush_rate: 1, keep_responses: true, fresh_app: false }, tier.pick(2, 3)),
-        (Scenario { name: "c06_2x1_shared_prediction_cache_cold".into(), batches: vec![vec![e(0, 4, "a0")], vec![e(0, 4, "b0")]], csv: false, flush_rate: 1, keep_responses: true, fresh_app: true }, tier.pick(2, 3)),
-        (Scenario { name: "c06_2x1_shared_prediction_cache_cold_distinct".into(), batches: vec![vec![e(0, 4, "a0")], vec![e(3, 1, "b0")]], csv: false, flush_rate: 1, keep_responses: true, fresh_app: true }, tier.pick(2, 3)),
-    ];
-    for (sc, b) in cache_scs {
-        let bound = Some(b);
+    let cb = Some(tier.pick(2, 3));
+    vec![
+        (false, Scenario { name: "c06_2x2_jsonl".into(), batches: vec![vec![q(0, "a0"), q(2, "a1")], vec![q(1, "b0"), q(4, "b1")]], csv: false, flush_rate: 1, keep_responses: true, fresh_app: false, combined: false }, None),
+        (false, Scenario { name: "c06_3x1_csv".into(), batches: vec![vec![q(0, "a0")], vec![q(2, "b0")], vec![q(3, "c0")]], csv: true, flush_rate: 1, keep_responses: true, fresh_app: false, combined: false }, Some(tier.pick(2, 4))),
+        // shared prediction cache, two tasks running battery-electric queries over one FloatCachePolicy.
+        // warm: every lookup is a hit (the cache was filled by the alone runs); cold: a fresh application per execution, so that
+        // misses, the model call and the update of two workers interleave; distinct: the two workers meet the keys in different orders
+        (true, Scenario { name: "c06_2x1_shared_prediction_cache".into(), batches: vec![vec![e(0, 4, "a0")], vec![e(0, 4, "b0")]], csv: false, flush_rate: 1, keep_responses: true, fresh_app: false, combined: false }, cb),
+        (true, Scenario { name: "c06_2x1_shared_prediction_cache_cold".into(), batches: vec![vec![e(0, 4, "a0")], vec![e(0, 4, "b0")]], csv: false, flush_rate: 1, keep_responses: true, fresh_app: true, combined: false }, cb),
+        (true, Scenario { name: "c06_2x1_shared_prediction_cache_cold_distinct".into(), batches: vec![vec![e(0, 4, "a0")], vec![e(3, 1, "b0")]], csv: false, flush_rate: 1, keep_responses: true, fresh_app: true, combined: false }, cb),
+    ]
+}
+
+fn schedules(tier: Tier, st: &mut Stats, bounds: &mut serde_json::Map<String, Value>) -> Result<(), String> {
+    let fx_plain = fixture_spec(&AppSpec::simple(base_net()))?;
+    let fx_cache = fixture_spec(&cache_spec())?;
+    for (cache, sc, bound) in schedule_scenarios(tier) {
         let t0 = std::time::Instant::now();
-        let (orders, schedules) = explore_scenario(&fx2, &sc, bound, tier.pick(20_000, 1_000_000), "C06", st)?;
-        bounds.insert(sc.name.clone(), json!({"preemption_bound": bound, "schedules": schedules, "distinct_file_orders": orders, "wall_s": t0.elapsed().as_secs_f64()}));
+        let (orders, schedules) = explore_scenario(if cache { &fx_cache } else { &fx_plain }, &sc, bound, tier.pick(20_000, 1_000_000), "C06", st)?;
+        bounds.insert(sc.name.clone(), json!({"preemption_bound": bound.map(|b| json!(b)).unwrap_or(json!("unbounded (complete)")), "schedules": schedules, "distinct_file_orders": orders, "wall_s": (t0.elapsed().as_secs_f64() * 10.0).round() / 10.0}));
+        if orders < 2 {
+            st.violation("harness", "vacuous_exploration", 0, || format!("scenario {} produced a single file order", sc.name), || json!({}));
+        }
     }
     Ok(())
 }
@@ -338,9 +340,60 @@ pub fn run(tier: Tier) -> i32 {
 }
 
 pub fn replay(case: &Value) -> i32 {
-    if case.get("scenario").is_some() {
-        println!("schedule case: use `./check C19 --replay <file>` semantics; re-running quick tier of C06");
+    let name = match case.get("scenario").and_then(|v| v.as_str()) {
+        Some(n) => n.to_string(),
+        None => {
+            println!("C06 replay of a non-schedule case: re-running the quick tier");
+            return run(Tier::Quick);
+        }
+    };
+    let (cache, sc, _) = match schedule_scenarios(Tier::Thorough).into_iter().find(|s| s.1.name == name) {
+        Some(s) => s,
+        None => {
+            println!("MACHINERY-ERROR unknown scenario {}", name);
+            return 2;
+        }
+    };
+    let fx = match fixture_spec(&if cache { cache_spec() } else { AppSpec::simple(base_net()) }) {
+        Ok(f) => f,
+        Err(e) => {
+            println!("MACHINERY-ERROR {}", e);
+            return 2;
+        }
+    };
+    let prefix: Vec<usize> = serde_json::from_value(case["schedule"].clone()).unwrap_or_default();
+    let al = crate::props::c19::alone(&fx.app, &sc.batches);
+    let mut verdicts = vec![];
+    // the recorded schedule is replayed twice without the explorer: identical observations are required before a failure is trusted
+    for round in 0..2 {
+        let ex = crate::engine::sched::Explorer::new(sc.batches.len());
+        match crate::props::c19::run_scenario(&ex, &fx, &sc, &prefix, None, false) {
+            Ok(o) => {
+                if let Some(d) = &o.exec.diverged {
+                    println!("MACHINERY-ERROR the recorded schedule cannot be followed: {}", d);
+                    return 2;
+                }
+                let (bad, order) = crate::props::c19::judge(&sc, &al, &o);
+                let bad: Vec<(&str, String)> = bad.into_iter().filter(|(c, _)| ["task_returns_alone_responses_in_order", "no_deadlock", "task_completes", "discard_policy_returns_nothing"].contains(c)).collect();
+                println!("round {}: file order {} ; {} choice points", round, order, o.exec.points.len());
+                for (c, d) in bad.iter() {
+                    println!("REPLAY-VIOLATION {} {}", c, d.chars().take(600).collect::<String>());
+                }
+                verdicts.push((bad.iter().map(|b| b.0.to_string()).collect::<Vec<_>>(), order));
+            }
+            Err(e) => {
+                println!("MACHINERY-ERROR {}", e);
+                return 2;
+            }
+        }
     }
-    println!("C06 replay of {}: re-running the quick tier", case);
-    run(Tier::Quick)
+    if verdicts[0] != verdicts[1] {
+        println!("MACHINERY-ERROR the same schedule gave different observations");
+        return 2;
+    }
+    if verdicts[0].0.is_empty() {
+        0
+    } else {
+        1
+    }
 }
